@@ -132,7 +132,7 @@ def run(t, budget=1.0):
     def body(data):
         entry, mi, L = pc.draw_target(data)
         M = entry.model
-        vals = data.draw(values.level_values(L, max_entries=3, inflate=data.draw(st.booleans())))
+        vals = data.draw(values.level_values(L, max_entries=3, inflate=data.draw(st.booleans()), model=M))
         img, size = M.encode_message(L, vals, background=data.draw(st.sampled_from([0, 0xFF, 0x11])))
         fits, sz, ctrl = M.walk_message(L, img)
         assert fits and sz == len(img), "reference walker disagrees with reference encoder"
